@@ -1346,6 +1346,9 @@ class Sym:
                 return [("some" if some else "none", self.name(inner), inner)]
             ok = s_.endswith("is_ok") == tr
             return [("ok" if ok else "err", self.name(inner), inner)]
+        if d[0] == "call" and len(d[2]) == 1 and short(d[1]) in ("Vec::<T, A>::is_empty", "<impl [T]>::is_empty", "<impl str>::is_empty", "String::is_empty"):
+            # one spelling for emptiness tests (also produced from `len() > 0`, `len() == 0`: accept.simplify)
+            return [("pred", "is_empty(%s)" % self.arg_name(d[2][0]), tr)]
         if d[0] == "call":
             return [("pred", self.name(d), tr)]
         if d[0] == "var":
